@@ -325,7 +325,8 @@ pub mod sync { pub use std::sync::Arc;
         pub enum Ordering { Relaxed, SeqCst }
         pub struct AtomicBool { pub x: u8 }
         // the flag may be raised at any time by another thread: the value read is unconstrained
-        impl AtomicBool { #[verifier::external_body] pub fn load(&self, o: Ordering) -> bool { unimplemented!() } }
+        impl AtomicBool { #[verifier::external_body] pub fn load(&self, o: Ordering) -> bool { unimplemented!() }
+            #[verifier::external_body] pub fn new(b: bool) -> AtomicBool { unimplemented!() } }
     }
 }
 pub mod tokio_util { pub mod sync {
@@ -454,6 +455,8 @@ pub mod tokio {
             // ASSUMED: blocking_recv delivers the messages in the order they were sent (`incoming` = the messages still to come, a prophecy;
             // None once every sender is gone and the queue is empty)
             pub struct Receiver<T> { pub ghost incoming: Seq<T>, pub ghost taken: Seq<T>, pub _t: ::std::marker::PhantomData<T> }
+            // R12 target for mpsc::channel(n): both ends of one NEW channel - its identity differs from every identity in `used`
+            #[verifier::external_body] pub fn channel_fresh<T>(n: usize, Ghost(used): Ghost<Set<int>>) -> (r: (Sender<T>, Receiver<T>)) ensures !used.contains(r.0.chan), r.1.taken == Seq::<T>::empty() { unimplemented!() }
             impl<T> Receiver<T> {
                 #[verifier::external_body] pub fn blocking_recv(&mut self) -> (r: Option<T>)
                     ensures
